@@ -606,15 +606,20 @@ func (rg *c08rig) faultMatrix(sh *core.Shard) (sig, what string) {
 		rg.up.take(id("slow-ok"))
 		rg.up.take(id("mid"))
 		// WebSocket upgrades are exempt from the timeout (any case of the token)
-		for _, tok := range []string{"websocket", "WebSocket", "WEBSOCKET"} {
-			cid := id("upg-" + tok)
+		for ti, tok := range []string{"websocket", "WebSocket", "WEBSOCKET", "websocket"} {
+			// Connection is a token list: browsers send "keep-alive, Upgrade"
+			connHdr := "Upgrade"
+			if ti == 3 {
+				connHdr = "keep-alive, Upgrade"
+			}
+			cid := id(fmt.Sprintf("upg-%s-%d", tok, ti))
 			rg.up.script(cid, &c08script{Behavior: "upgrade"})
 			sh.Count("fault_cases", 1)
 			c, err := net.DialTimeout("tcp", addr, 5*time.Second)
 			if err != nil {
 				return "fault-no-response", "dial: " + err.Error()
 			}
-			fmt.Fprintf(c, "GET /ws HTTP/1.1\r\nHost: c08.piko.test\r\nX-Case: %s\r\nUpgrade: %s\r\nConnection: Upgrade\r\nSec-WebSocket-Version: 13\r\nSec-WebSocket-Key: dGhlIHNhbXBsZSBub25jZQ==\r\n\r\n", cid, tok)
+			fmt.Fprintf(c, "GET /ws HTTP/1.1\r\nHost: c08.piko.test\r\nX-Case: %s\r\nUpgrade: %s\r\nConnection: %s\r\nSec-WebSocket-Version: 13\r\nSec-WebSocket-Key: dGhlIHNhbXBsZSBub25jZQ==\r\n\r\n", cid, tok, connHdr)
 			_ = c.SetDeadline(time.Now().Add(20 * time.Second))
 			br := bufio.NewReader(c)
 			resp, err := http.ReadResponse(br, &http.Request{Method: "GET"})
@@ -624,7 +629,7 @@ func (rg *c08rig) faultMatrix(sh *core.Shard) (sig, what string) {
 				if resp != nil {
 					st = resp.StatusCode
 				}
-				return "upgrade-failed", fmt.Sprintf("Upgrade: %s via %s: expected 101 from the upstream, got status %d err %v", tok, via, st, err)
+				return "upgrade-failed", fmt.Sprintf("Upgrade: %s (Connection: "+connHdr+") via %s: expected 101 from the upstream, got status %d err %v", tok, via, st, err)
 			}
 			time.Sleep(4 * tmo) // idle well past the proxy timeout
 			msg := "still-open\n"
@@ -633,7 +638,7 @@ func (rg *c08rig) faultMatrix(sh *core.Shard) (sig, what string) {
 			c.Close()
 			rg.up.take(cid)
 			if werr != nil || rerr != nil || line != msg {
-				return "timeout-applied-to-upgrade", fmt.Sprintf("Upgrade: %s via %s: the upgraded connection did not survive %s idle (proxy timeout %s): write err %v, read %q err %v", tok, via, 4*tmo, tmo, werr, line, rerr)
+				return "timeout-applied-to-upgrade", fmt.Sprintf("Upgrade: %s (Connection: "+connHdr+") via %s: the upgraded connection did not survive %s idle (proxy timeout %s): write err %v, read %q err %v", tok, via, 4*tmo, tmo, werr, line, rerr)
 			}
 		}
 	}
